@@ -148,3 +148,17 @@ PROPS["C10"] = dict(
     assumptions=[],
     rule="bounded: networks x optional added ELSE rule x pause points; distinct = distinct (network, rule, pause) triples",
 )
+
+PROPS["C20"] = dict(
+    level="proof",
+    explanation="Deductive core: Pattern.at / TimeSeries.at / Demands.at (pattern value at a time, base x pattern, sum over the entries x multiplier, "
+                "category filter; loop invariant), expected_demand (entry for an arbitrary junction and grid time is Demands.at(time + pattern_start, "
+                "demand multiplier, category) - the value expected_demand_param gives the simulator in demand-driven mode), _gcd (Euclid loop invariant "
+                "and variant), _lcm. Bounded stand-ins (pandas): average_expected_demand (mean over one common period), population, "
+                "water_service_availability, todini_index, modified_resilience_index, tank_capacity, pump power/energy/cost, annual_network_cost and "
+                "annual_ghg_emissions against independently written documented formulas on random tables and example networks.",
+    trusted_base=["pandas elementwise arithmetic / sum / mean (bounded stand-ins only)", RT_TRUST],
+    not_decided=["the pandas table metrics for arbitrary tables (bounded only)", "tank_capacity for volume-curve tanks", "meaning of 'eff' in the maximum-pump-power formula (percent vs fraction): taken as the code passes it"],
+    assumptions=["times and pattern timestep are integers"],
+    rule="bounded: random tables / example networks; distinct = distinct (metric, shape) or (network, check) pairs",
+)
